@@ -19,6 +19,7 @@ RULE = (
     "every subset (<=16) of interior points fixed by index and by position x iterations in {1,2,5,50,200}; reference: "
     "adjacency model derived from the index lists alone (boundary = edge/quad owned by one cell, neighbours = cell "
     "edges). non-trivial = a distinct (map, fixed set, iterations) smoothing run"
+    " Sketches put together by MappedSketch.merge() (list, pairs, sequence)."
 )
 ASSUMPTIONS = ["Gauss-Seidel vs Jacobi is not fixed by the statement: only fixed points, invariance and single-free-point exactness are compared"]
 
